@@ -105,12 +105,12 @@ RM2_SCENARIOS = {   # Remove2.tla scenario -> remove_all path on CONC_TREES["rm2
 REAL_STEPS_RM = {"unlink": 1, "rmdir": 1, "opendir": 1, "scan": 3, "iter": 0}
 
 
-def tlc_remove2(scn, ignore=True, nofollow=True, attack=0, dump=False):
+def tlc_remove2(scn, ignore=True, nofollow=True, attack=0, dump=False, anyorder=False):
     import re
-    cfg = os.path.join(workdir(), "rm2-%s-%s-%s-%d.cfg" % (scn, ignore, nofollow, attack))
+    cfg = os.path.join(workdir(), "rm2-%s-%s-%s-%d-%s.cfg" % (scn, ignore, nofollow, attack, anyorder))
     with open(cfg, "w") as f:
-        f.write("SPECIFICATION Spec\nCONSTANTS\n  Procs = {\"p1\", \"p2\"}\n  Scenario <- %s\n  MaxIno = 14\n  IgnoreENOENT = %s\n  NoFollowOnOpen = %s\n  MaxAttack = %d\n"
-                "INVARIANTS TypeOK AllSucceed Gone OnlySubtreeGone WholeSubtreeGone OutsideUntouched\nCHECK_DEADLOCK FALSE\n" % (scn, "TRUE" if ignore else "FALSE", "TRUE" if nofollow else "FALSE", attack))
+        f.write("SPECIFICATION Spec\nCONSTANTS\n  Procs = {\"p1\", \"p2\"}\n  Scenario <- %s\n  MaxIno = 15\n  IgnoreENOENT = %s\n  NoFollowOnOpen = %s\n  MaxAttack = %d\n  AnyOrder = %s\n"
+                "INVARIANTS TypeOK AllSucceed Gone OnlySubtreeGone WholeSubtreeGone OutsideUntouched\nCHECK_DEADLOCK FALSE\n" % (scn, "TRUE" if ignore else "FALSE", "TRUE" if nofollow else "FALSE", attack, "TRUE" if anyorder else "FALSE"))
     dfile = os.path.join(workdir(), "rm2-%s" % scn)
     r = run_tlc("MC_Remove2.tla", cfg, workers=1 if dump else 8, timeout=900, extra=["-dump", "dot,actionlabels", dfile] if dump else None)
     scheds = []
@@ -256,13 +256,15 @@ def conc_cases(prop, rnd, quick):
                                   meta=dict(kind="concurrent-tlc", tree=tname, calls=calls, backend="kernel", scenario=scn, order_prefix=order)))
     if prop == "C13":
         tree = [N(5, R, "a", "dir"), N(6, 5, "b", "dir"), N(7, 6, "c", "dir"), N(8, 7, "f1", "file"), N(9, 6, "f2", "file"), N(10, 5, "l_out", "lnk", "../../out"),
-                N(12, R, "e", "dir"), N(13, 12, "keep", "file"), N(11, R, "swap", "lnk", "../out")]
+                N(12, R, "e", "dir"), N(13, 12, "keep", "file"), N(11, R, "swap", "lnk", "../out"), N(14, R, "swap2", "lnk", "../../out")]
         for scn, path in RM2_SCENARIOS.items():
             r, scheds = tlc_remove2(scn, dump=True)
-            ra, _ = tlc_remove2(scn, attack=1)
-            v1, _ = tlc_remove2(scn, ignore=False)
-            v2, _ = tlc_remove2(scn, nofollow=False, attack=1)
+            rall, _ = tlc_remove2(scn, anyorder=True)
+            ra, _ = tlc_remove2(scn, attack=1, anyorder=True)
+            v1, _ = tlc_remove2(scn, ignore=False, anyorder=True)
+            v2, _ = tlc_remove2(scn, nofollow=False, attack=1, anyorder=True)
             tlc_info[scn] = dict(states=r["distinct"], transitions=r["states"], complete=r["complete"], violated=r["violated"], schedules=len(scheds),
+                                 any_listing_order=dict(states=rall["distinct"], complete=rall["complete"], violated=rall["violated"]),
                                  with_one_attacker_exchange=dict(states=ra["distinct"], violated=ra["violated"]),
                                  variant_no_enoent_tolerance=v1["violated"], variant_following_open_under_attack=v2["violated"])
             if quick and len(scheds) > 150:
@@ -354,8 +356,18 @@ def run(prop, tier_):
         for d in conf["invariant_violations"][:5]:
             v.notes.append("MODEL-DRIFT Mkdir2: invariant %s fails on the model state driven by the real trace of %s" % (d["invariant"], d["case"]))
         conf = dict(conf, drift=conf["drift"][:10], invariant_violations=conf["invariant_violations"][:10], n_drift=len(conf["drift"]), n_invariant=len(conf["invariant_violations"]))
+    conf_rm = None
+    if prop == "C13":
+        todo = [(c, r) for c, r in zip(cases, results)
+                if r.get("status") == "ok" and all(x.get("op") == "remove_all" for x in c.get("calls", []))]
+        conf_rm = trace_conformance("MC_TraceRemove2.tla", "TraceRemove2.cfg", project_remove2, todo, batch=120)
+        for d in conf_rm["drift"][:5]:
+            v.notes.append("MODEL-DRIFT Remove2: %s first unmatched %s (event %d of %d)" % (d["case"], d["first_unmatched"], d["at_event"], d["of"]))
+        for d in conf_rm["invariant_violations"][:5]:
+            v.notes.append("MODEL-DRIFT Remove2: invariant %s fails on the model state driven by the real trace of %s" % (d["invariant"], d["case"]))
+        conf_rm = dict(conf_rm, drift=conf_rm["drift"][:10], invariant_violations=conf_rm["invariant_violations"][:10], n_drift=len(conf_rm["drift"]), n_invariant=len(conf_rm["invariant_violations"]))
     rc = v.finish()
-    cov = dict(mkdir2_action_conformance=conf, states=max(gen["distinct"], 1) + stats["trace_states"], transitions=max(gen["states"], 1) + stats["events"], traces_validated_against_impl=stats["traces"],
+    cov = dict(mkdir2_action_conformance=conf, remove2_action_conformance=conf_rm, states=max(gen["distinct"], 1) + stats["trace_states"], transitions=max(gen["states"], 1) + stats["events"], traces_validated_against_impl=stats["traces"],
                samples=samples, evaluations=len(cases), distinct_nontrivial=len({json.dumps(c["meta"], sort_keys=True) for c in cases}),
                rule="static case = (path spelling generated by TLC, backend); concurrent case = (scenario of two calls, backend, schedule prefix with up to two preemptions at relevant-syscall granularity); all distinct by construction; non-trivial = all (every path has symlink/dot/missing components or a second process)",
                exhaustive=not quick, static_generated=total, static_executed=len(scases), schedule_space=space, schedules_executed=len(ccases),
